@@ -215,8 +215,22 @@ def run_entry(ctx, r, ent, X, layout, bname, bounds, owned_bounds, seed):
                     kw["n_clusters"] = 2
                 if cls in ("RandomForestClassifier", "DecisionTreeClassifier"):
                     kw["classes"] = [0, 1, 2]
+                    if r.chance(0.6):
+                        # array-typed constructor arguments are the caller's arrays too: contiguous, in the caller's own
+                        # (not ascending) order, integer / float / string-free variants
+                        ca = np.array(r.choice([[2, 0, 1], [1, 2, 0], [0, 1, 2], [2, 1, 0]]),
+                                      dtype=r.choice([np.int64, np.int32, np.float64]))
+                        kw["classes"] = ca
+                        owned["classes"] = ca
+                        before["classes"] = snap(ca)
                 if cls == "RandomForestClassifier":
                     kw["n_estimators"] = 3
+                if cls == "GaussianNB" and r.chance(0.6):
+                    pr = np.array(r.choice([[0.5, 0.5, 0.0], [0.2, 0.3, 0.5], [0.0, 1.0, 0.0], [1 / 3, 1 / 3, 1 / 3]]),
+                                  dtype=np.float64)
+                    kw["priors"] = pr
+                    owned["priors"] = pr
+                    before["priors"] = snap(pr)
                 if cls == "LinearRegression":
                     kw["bounds_X"] = bounds
                     yb = np.array([-1.0]) if y.ndim == 1 else np.array([-1.0, -2.0])
